@@ -33,12 +33,15 @@ def record(strings, name, tokens=False, profile="release", extra=()):
             f.write(json.dumps(s, ensure_ascii=False) + "\n")
     args = ["lang-trace", "--in", inp, "--out", out, "--ids", IDS] + (["--tokens"] if tokens else []) + list(extra)
     start = 0
-    for _ in range(50):
-        pr = vlib.conform(args + (["--start", start] if start else []), profile=profile, timeout=3600)
+    for attempt in range(6):
+        pr = vlib.conform(args + ["--patience", 20] + (["--start", start] if start else []), profile=profile, timeout=3600)
         info = json.loads(pr.stdout.strip().splitlines()[-1])
         if not info.get("resume"):
             break
         start = info["resume"]      # a query never returned: it is recorded as such, the recorder continues behind it
+    else:
+        # six queries did not return: enough evidence, the rest of the inputs is not recorded
+        vlib.log("[record] %s: giving up after 6 queries that did not return; %d of %d inputs recorded" % (name, start, len(strings)))
     return out
 
 
